@@ -533,8 +533,12 @@ func BigBatch(name string, n int, slow bool, bound int) *world.Scenario {
 		reqs = append(reqs, r)
 		rest = append(rest, r.Bytes...)
 	}
+	// two more requests once everything has been answered (whatever the big flush left behind shows up here)
+	tail := []Req{GetReq(keysC[3]), GetReq(keysA[4])}
+	reqs = append(reqs, tail...)
 	cs := ClientOf(reqs, false)
-	cs.Chunks = []world.Chunk{{Data: reqs[0].Bytes}, {Data: append(append([]byte{}, head.Bytes...), rest...), WaitReplies: 1}}
+	cs.Chunks = []world.Chunk{{Data: reqs[0].Bytes}, {Data: append(append([]byte{}, head.Bytes...), rest...), WaitReplies: 1},
+		{Data: tail[0].Bytes, WaitReplies: n + 2}, {Data: tail[1].Bytes, WaitReplies: n + 3}}
 	cs.Slow = slow
 	sc.Clients = []world.ClientSpec{cs}
 	sc.Reply = func(w *world.World, bc *world.BConn, args [][]byte) ([]byte, int) {
